@@ -629,7 +629,10 @@ def unit(root='/repo'):
     write = fsop('write', sig=[('r: &mut dyn ZeroCopyReader', 'r: &mut File')])
     write.ret_name = 'res'
     fallocate = fsop('fallocate', ens=['no_upper() ==> r is Err // [C10.fallocate.no_upper]'])
-    items.append(Group('impl OverlayFs {', [setattr, setxattr, removexattr, fallocate] + ([write] if CHECK_WRITE_LOWER else [])))
+    # RENAME is not implemented by the overlay (EXDEV for every request); what C10 asks of it is the frame every operation has: no lower layer is touched
+    # (UP_COMMON_ENS) - a version that starts renaming inside a lower layer fails there; the errno is pinned behaviour, no property names it
+    rename = fsop('rename', ens=['r is Err ==> *final(vxh) == *old(vxh) // [pin.C10.rename.refused_untouched]'])
+    items.append(Group('impl OverlayFs {', [setattr, setxattr, removexattr, fallocate, rename] + ([write] if CHECK_WRITE_LOWER else [])))
 
     # ---- OPEN: the one read-path operation that can modify by itself (open(2): O_TRUNC / O_CREAT / a write access mode)
     HARMLESS = 'old(vxh).in_upper(self.nid()) || sp_open_harmless(flags) // [C10.open.lower_flags] a node that stands on a lower layer is only opened with flags that cannot change the file'
